@@ -155,6 +155,10 @@ impl<I: Iterator<Item = (Key, Prio)>> Iterator for Hinted<I> {
     fn next(&mut self) -> Option<(Key, Prio)> {
         tick(FaultKind::Feed);
         if self.done {
+            // a few poison pairs, then None for good (an implementation that keeps polling must terminate)
+            if self.poison >= 3 {
+                return None;
+            }
             self.poison += 1;
             return Some((Key::new(POISON_ID + self.poison, 0), Prio::new(i64::MAX - self.poison as i64)));
         }
